@@ -311,32 +311,33 @@ func run(src string) (res result) {
 // T(UnmarshalText), each '+' (ok) or '-' (error / panic).
 func api(src string) string {
 	var sb strings.Builder
-	mark := func(ok bool) {
-		if ok {
+	// each wrapper under recover: '+' ok, '-' error (for MustParse: panic), '!' unexpected panic
+	call := func(f func() bool) {
+		defer func() {
+			if r := recover(); r != nil {
+				sb.WriteByte('!')
+			}
+		}()
+		if f() {
 			sb.WriteByte('+')
 		} else {
 			sb.WriteByte('-')
 		}
 	}
-	_, err := path.Parse(src)
-	mark(err == nil)
+	call(func() bool { _, err := path.Parse(src); return err == nil })
 	func() {
 		defer func() {
 			if r := recover(); r != nil {
-				mark(false)
+				sb.WriteByte('-')
 			}
 		}()
 		_ = path.MustParse(src)
-		mark(true)
+		sb.WriteByte('+')
 	}()
-	var p path.Path
-	mark(p.Scan(src) == nil)
-	var p2 path.Path
-	mark(p2.Scan([]byte(src)) == nil)
-	var p3 path.Path
-	mark(p3.UnmarshalBinary([]byte(src)) == nil)
-	var p4 path.Path
-	mark(p4.UnmarshalText([]byte(src)) == nil)
+	call(func() bool { var p path.Path; return p.Scan(src) == nil })
+	call(func() bool { var p path.Path; return p.Scan([]byte(src)) == nil })
+	call(func() bool { var p path.Path; return p.UnmarshalBinary([]byte(src)) == nil })
+	call(func() bool { var p path.Path; return p.UnmarshalText([]byte(src)) == nil })
 	return sb.String()
 }
 
